@@ -66,6 +66,7 @@ static long wb_walk(struct Tree* m, var node, var parent, int depth) {
 
 static void project(struct Slot* so, int o) {
   var c = so->obj;
+  uint64_t addr_sig = 1469598103934665603ULL;     /* where the keys live, in iteration order (references must survive a failed call) */
   static long long buf[1 << 16], ks[1 << 16], vs[1 << 16];
   volatile size_t n;
   int full = (light == 0) || force_full;
@@ -80,6 +81,7 @@ static void project(struct Slot* so, int o) {
     try {
       var it = iter_init(c);
       while (it != Terminal && n < lim) {
+        addr_sig = (addr_sig ^ (uint64_t)(uintptr_t)it) * 0x100000001b3ULL;
         long long tk = vt_token(vt_k, vt_nk, it);
         if (ktk == VT_PROBE) { ks[nks] = ((struct Probe*)it)->serial; nks++; }
         if (vtk == VT_PROBE) { var v = get(c, it); vs[nvs] = ((struct Probe*)v)->serial; nvs++; }
@@ -114,6 +116,7 @@ static void project(struct Slot* so, int o) {
   }
   ev_ints("pk", pk, (size_t)np); ev_ints("pg", pg, (size_t)np); ev_ints("pm", pm, (size_t)np);
   ev_ints("ks", ks, nks); ev_ints("vs", vs, nvs);
+  ev_limbs("ah", full ? addr_sig : 0);
   ev_str("kt", c_str(key_type(c)));
   ev_str("vt", c_str(val_type(c)));
 #ifndef NO_WHITEBOX
